@@ -55,6 +55,7 @@ Definition lexd (d: gdecl) : list tt :=
 Definition exp_item (i: gitem) : attr := match i with IFlag n => [AId n] | IKv n v => [AId n; ALit v] end.
 Definition exp_attrs (l: list gattr) : list attr :=
   flat_map (fun a => match a with GADiff items _ => map exp_item items | GAOther _ _ => [] end) l.
+Definition exp_field3 (f: gfield) : list attr * option string * ty := (exp_attrs (gf_attrs f), Some (gf_name f), embed (gf_ty f)).
 Definition exp_field (f: gfield) : field := {| f_attrs := exp_attrs (gf_attrs f); f_name := Some (gf_name f); f_ty := embed (gf_ty f) |}.
 Definition exp_param (p: gparam) : generic :=
   match p with
@@ -93,3 +94,31 @@ End Expected.
 Definition param_key (p: gparam) : list tt := match p with PLife a _ => [TId a] | PType n _ _ => [TId n] | PConst n _ _ => [TId n] end.
 Definition all_keys (og: option ggenerics) : list (list tt) :=
   match og with None => [] | Some gg => map param_key (gg_params gg) ++ match gg_where gg with None => [] | Some (ws, _) => map (fun w => lex (gw_ty w)) ws end end.
+
+(* ---- enums ---- *)
+Inductive gvbody := VUnit | VTuple (l: list g) (tr: bool) | VStruct (fs: list gfield) (tr: bool).
+Record gvariant := { gv_attrs: list gattr; gv_name: string; gv_body: gvbody }.
+Record genum := { en_attrs: list gattr; en_pub: bool; en_name: string; en_generics: option ggenerics; en_variants: list gvariant; en_trailing: bool }.
+
+Definition lex_vbody (b: gvbody) : list tt :=
+  match b with VUnit => [] | VTuple l tr => lex (GTuple l tr) | VStruct fs tr => [TG Brace (lex_body fs tr)] end.
+Definition lex_variant (v: gvariant) : list tt := flat_map lex_attr (gv_attrs v) ++ TId (gv_name v) :: lex_vbody (gv_body v).
+Definition lexe (e: genum) : list tt :=
+  flat_map lex_attr (en_attrs e) ++ (if en_pub e then [TId "pub"] else []) ++
+  TId "enum" :: TId (en_name e) :: lex_generics (en_generics e) ++
+  [TG Brace (sep_comma (map lex_variant (en_variants e)) ++ if en_trailing e then [TP PComma] else [])].
+
+Definition exp_vbody (b: gvbody) : ty :=
+  match b with
+  | VUnit => Ty CNone None None None
+  | VTuple l tr => embed (GTuple l tr)
+  | VStruct fs _ => let fs3 := map exp_field3 fs in Ty (CAnon fs3) (Some (map (fun f => snd f) fs3)) None None
+  end.
+Definition exp_variant (v: gvariant) : field := {| f_attrs := exp_attrs (gv_attrs v); f_name := Some (gv_name v); f_ty := exp_vbody (gv_body v) |}.
+Section ExpectedEnum.
+Variable dedup_ty : list ty -> list ty.
+Variable dedup_lt : list string -> list string.
+(* the attributes written on the enum item itself are parsed and then dropped (parse_data hands them to the struct derive only) *)
+Definition expected_enum (e: genum) : enumt :=
+  {| e_name := en_name e; e_variants := map exp_variant (en_variants e); e_attrs := []; e_generics := exp_generics dedup_ty dedup_lt (en_generics e) |}.
+End ExpectedEnum.
